@@ -6,6 +6,7 @@ Scaffolding for validating candidate invariants before proving them; not part of
 base and not used by any theorem.
 -/
 import EkwVerif.Lemmas.CtrlInvDefs
+import EkwVerif.Lemmas.CtrlInv4X
 
 namespace EkwVerif.Ctrl.Check
 open EkwVerif.Ctrl
@@ -115,6 +116,17 @@ def checks (j : Job) (cl : Cluster) (s : Sys) : List (String × Bool) :=
         (cl.hosts.any (fun h => c.dsHost ds h == .available)))),
     ("4.purged_unneeded", e.purged.all (fun p => !neededB j c p.2)),
     ("4.present_produced", d.hosts.all (fun h => d.dss.all (fun ds => imp (e.present h ds).isSome (e.produced ds)))),
+    -- extra tiers InvT / Inv2X / Inv4X
+    ("T.todo_prep", s.todo.all (fun ap => ap.2.all (fun p => c.hostDs ap.1.worker.host p.1 != .missing && (j.inputs ap.1.task).contains p.1))),
+    ("T.todo_unannounced", s.todoPairs.all (fun q => (List.range (j.nOut q.2 + 1)).all (fun k => c.announced ⟨q.2, k⟩ == false))),
+    ("2X.tracked_valid", d.tasks.all (fun t => imp (c.tracked t) (t < j.tasks.length))),
+    ("2X.flight_unique", decide ((c.ongoing ++ s.todoPairs).map (·.2)).Nodup),
+    ("2X.evT_produced", pubTs.all (fun p => e.produced p.2)),
+    ("4X.transmit_count", d.dss.all (fun ds => d.hosts.all (fun h => (e.outstanding.filter (isTransmitTo ds h)).length ≤ 1))),
+    ("4X.status_produced", d.hosts.all (fun h => d.dss.all (fun ds => imp (c.hostDs h ds != .missing && neededB j c ds && e.produced ds)
+        ((e.present h ds).isSome || inboundTransmit e ds h)))),
+    ("4X.status_unran", d.hosts.all (fun h => d.dss.all (fun ds => imp (c.hostDs h ds != .missing && e.ran ds.task == false)
+        (d.workers.any (fun w => w.host == h && inFlightB s w ds.task))))),
     -- monitors and crashes
     ("viol_empty", e.viol.isEmpty),
     ("no_crash", s.err.isNone) ]
